@@ -21,9 +21,14 @@
 (*                     syms]),          precomputed symbols among the      *)
 (*                                      arguments of its `loop`            *)
 (*    steppers  : Seq([array, name, d])]  integrator steppers (class name, *)
-(*                                      names x of the d_x arguments)      *)
+(*                                      names x of the d_x arguments of    *)
+(*                                      all its methods: initialize,       *)
+(*                                      stage1, stage2, stage3, ...)       *)
 (* `eqs` is in the order in which the equations are written; `structure`   *)
 (* says how they are wrapped (Stages).  Names are strings, sets are sets.  *)
+(*                                                                         *)
+(* The contract speaks of one problem: it holds for every build whatever   *)
+(* was built before in the same process (histories: SetupMC.tla).          *)
 (*                                                                         *)
 (* An *outcome* is what the chain did: [k, stage, tokens]                  *)
 (*   k = "accepted"  every constructor returned and the code was generated *)
@@ -163,11 +168,14 @@ May(T, c) == AllProblems(T, c, TRUE)
 \* "raises an error that names the equation and what is missing": the
 \* message contains the class name of an equation that has a problem and,
 \* for that problem, a missing name (or the array that does not exist).
-\* A stepper is identified by the array it is given for: its class name is
-\* not demanded.  That the message also names the array from which a
-\* property is missing is reported (NamesArray) but not demanded.
+\* A stepper is identified by its class name or by the array it is given
+\* for (an integrator has one stepper per array); an error that names
+\* neither (a bare KeyError 'd_x') does not say who lacks the name.  That
+\* the message also names the array from which a property is missing is
+\* reported (NamesArray) but not demanded.  (tokens: the identifiers of
+\* the message, and for d_x / s_x also x.)
 StepperKinds == {"stepper_array", "stepper_props"}
-WhoOK(p, tok) == p.kind \in StepperKinds \/ p.who \in tok
+WhoOK(p, tok) == p.who \in tok \/ (p.kind \in StepperKinds /\ p.array \in tok)
 WhatOK(p, tok) == IF p.names = {} THEN p.array \in tok
                   ELSE p.names \cap tok # {}
 NamesArray(T, c, out) ==
